@@ -7,11 +7,11 @@ from concurrent.futures import ThreadPoolExecutor
 import vlib
 
 HEADER = ("From Coq Require Import ZArith List String Bool.\n"
-          "From GCNP Require Import base.GoInt base.Bytes spec.SpecCql model.CqlWire model.CqlContainers model.CqlCases.\n"
+          "From GCNP Require Import base.GoInt base.Bytes spec.SpecCql model.CqlWire model.CqlContainers model.CqlTyping model.CqlCases model.CqlGoVal model.CqlGoCases.\n"
           "Import ListNotations.\nOpen Scope Z_scope.\n"
           "Set Printing Depth 1000000.\nSet Printing Width 1000000.\n")
 
-MODEL_TARGETS = ["model/CqlCases.vo"]
+MODEL_TARGETS = ["model/CqlCases.vo", "model/CqlGoCases.vo"]
 MAX_HEX = 6000          # cases with longer encodings are judged on the implementation only (Coq string literals stay small)
 
 TRUSTED = [
@@ -25,7 +25,7 @@ TRUSTED = [
 def harness_records(sub, args, seed, timeout=900):
     rc, out, err = vlib.harness("cql", [sub] + [str(a) for a in args], seed, timeout=timeout)
     recs = []
-    for l in out.splitlines():
+    for l in out.split("\n"):
         l = l.strip()
         if l:
             try:
@@ -56,6 +56,10 @@ def usable(r):
     return r.get("enc_class") != "nocodec" and len(r.get("enc_hex", "")) <= MAX_HEX and len(r.get("val_coq", "")) <= 4 * MAX_HEX
 
 
+def directed_args(tier):
+    return [] if tier == "thorough" else ["quick"]
+
+
 def eval_cases(name, defs, cases, shards=8, timeout=900):
     """cases: list of (id, coq_bool_expr). Returns (ok, mismatching ids, log)."""
     if not cases:
@@ -68,7 +72,14 @@ def eval_cases(name, defs, cases, shards=8, timeout=900):
         lines.append("Definition cases : list (string * bool) := [\n  %s]." % ";\n  ".join('(%s, %s)' % (vlib.coq_str(cid), e) for cid, e in chunks[i]))
         lines.append("Definition mism := Eval vm_compute in map fst (filter (fun c => negb (snd c)) cases).")
         lines.append("Print mism.")
-        return vlib.coq_eval("%s_%d" % (name, i), "\n".join(lines) + "\n", timeout=timeout)
+        res = vlib.coq_eval("%s_%d" % (name, i), "\n".join(lines) + "\n", timeout=timeout)
+        if res[0] == 0 and "mism = []" in " ".join(res[1].split()):
+            # generated case files are large; everyone's forbidden_scan walks coq/run - keep only files that need a look
+            try:
+                os.remove(os.path.join(vlib.COQ, "run", "%s_%d.v" % (name, i)))
+            except OSError:
+                pass
+        return res
 
     with ThreadPoolExecutor(max_workers=shards) as ex:
         results = list(ex.map(one, range(shards)))
@@ -170,3 +181,37 @@ def malformed_correspondence(seed, n=1500, shards=8):
         by[r["class"]] = by.get(r["class"], 0) + 1
     return {"cases": len(ran), "skipped": len(skipped), "panics": [r for r in ran if r["class"] == "panic"], "mismatches": bad,
             "ok": ok and rc == 0, "log": (err if rc != 0 else "") + log, "by_class": by, "records": {r["id"]: r for r in ran}}
+
+
+def gobs(cls, was_null, g):
+    if cls == "ok":
+        return "(GOk %s %s)" % (coqbool(was_null), g)
+    return {"err": "GErr", "panic": "GPanic"}.get(cls, "GPanic")
+
+
+def rep_cases(cases):
+    """Go-representation layer (model/CqlGoVal.v): for every case whose representation lies in the modelled universe, the Encode
+    from the representation, the Decode into the same representation and the Decode into an untyped destination."""
+    out = []
+    for r in cases:
+        if not r.get("src_gty") or not usable(r) or len(r.get("src_g", "")) > 3 * MAX_HEX:
+            continue
+        out.append((r["id"] + ".genc", "g_enc_agrees %d %s %s %s %s %s %s" % (r["ver"], r["type_coq"], r["src_gty"], r["src_g"], r["val_coq"], coqbool(r["unordered"]), eobs(r))))
+        if r["enc_class"] not in ("ok", "null"):
+            continue
+        src = '(Some (hx "%s"))' % r["enc_hex"] if r["enc_class"] == "ok" else "None"
+        if r.get("dest_gty") and r.get("same_class") == "ok":
+            out.append((r["id"] + ".gsame", "g_dec_agrees %d %s %s (gzero %s) %s %s" % (r["ver"], r["type_coq"], r["dest_gty"], r["dest_gty"], src, gobs("ok", r["same_null"], r["same_g"]))))
+        if r.get("dec_g") and r.get("dec_class") == "ok":
+            out.append((r["id"] + ".giface", "g_dec_agrees %d %s GIface GVNilIface %s %s" % (r["ver"], r["type_coq"], src, gobs("ok", r["dec_null"], r["dec_g"]))))
+    return out
+
+
+def reuse_cases(recs):
+    out = []
+    for r in recs:
+        if r["kind"] != "reuse":
+            continue
+        src = {"value": '(Some (hx "%s"))' % r["hex"], "null": "None", "empty": "(Some [])"}[r["input"]]
+        out.append((r["id"], "g_dec_agrees %d %s %s %s %s %s" % (r["ver"], r["type_coq"], r["gty"], r["prefill_g"], src, gobs(r["class"], r.get("was_null", False), r.get("result_g", "GVNilIface")))))
+    return out
